@@ -198,8 +198,16 @@ INT_SUBST = [b'0', b'-1', b'-5', b'99999999999', b'2147483647', b'65536', b'NA',
 FLT_SUBST = [b'NA', b'abc', b'1e999', b'-', b'1.2.3', b'nan', b'-1e-999', b'.', b'1e+', b'0x10', b'1,5']
 LOC_SUBST = [b'x3', b'x0', b'x-1', b'z2000000000', b'sel2', b'code5', b'X1', b'zz', b'NA', b'f99', b'x4294967297', b'rklow2']
 
-def prefixes(rng, data, quick):
+def prefixes(rng, data, quick, modelled=True):
     n = len(data)
+    if quick and not modelled and n > 90:
+        # classes without a model: the generic rules only; line ends and a sample
+        keep = set(range(0, 12)) | {n - 1, n - 2}
+        for m in re.finditer(rb'\n', data):
+            keep.add(m.start()); keep.add(min(n - 1, m.start() + 1))
+        for _ in range(40): keep.add(rng.randrange(n))
+        if len(keep) > 90: keep = set(rng.sample(sorted(keep), 90))
+        return sorted(keep)
     if n <= (260 if quick else 3000): return list(range(n))
     keep = set(range(0, 64)) | set(range(n - 24, n))
     for m in re.finditer(rb'\n', data):
@@ -359,7 +367,7 @@ def check(ctx, quick, rng, runner, exe, tmpdir, proofs_ok):
         cases.append((cls, 'coq-witness:' + name, data))
     for cls, data in corpus:
         cases.append((cls, 'valid', data))
-        for p in prefixes(rng, data, quick): cases.append((cls, 'prefix', data[:p]))
+        for p in prefixes(rng, data, quick, cls in MODELLED): cases.append((cls, 'prefix', data[:p]))
         if cls < 40:
             for lab, d in corruptions(rng, cls, data, quick): cases.append((cls, lab, d))
         else:
@@ -389,6 +397,14 @@ def check(ctx, quick, rng, runner, exe, tmpdir, proofs_ok):
 
     t0 = time.time()
     impl = run_children_spread(ctx, exe, tmpdir, [(c, d) for c, _, d in cases], rng)
+    # a time-out must be reproducible: each one is run a second time, alone; a case that then answers is only 'slow'
+    tmo = [i for i, o in enumerate(impl) if o and o['kind'] == 'timeout']
+    if tmo:
+        again = run_children(ctx, exe, tmpdir, [(cases[i][0], cases[i][2]) for i in tmo], batch=1)
+        nslow = 0
+        for i, o in zip(tmo, again):
+            if o and o['kind'] != 'timeout': impl[i] = o; nslow += 1
+        ctx.cov['timeouts_not_reproduced'] = nslow
     kinds = {}
     for o in impl:
         if o: kinds[o['kind']] = kinds.get(o['kind'], 0) + 1
@@ -457,7 +473,11 @@ def check(ctx, quick, rng, runner, exe, tmpdir, proofs_ok):
                     found_input = True
                     report('unpredicted:%s:%s%s' % (name, oi.get('what', oi['kind']), (':' + oi['where']) if oi.get('where') else ''),
                            '%s on a %s file (%s): %s — the reader model predicts %s' % (name, CLS[cls], lab, generic_bad, short_m(o2)), replay_of(cls, data, oi, model[i]), len(data))
-                elif oi['kind'] == 'ok' and (min(oi['flags']) < 1):
+                elif oi['kind'] == 'ok' and impl_illformed(cls, oi['dump']):
+                    found_input = True
+                    report(illformed_key(cls, oi['dump']), '%s returns an object that violates the class invariant (%s) for a %s file (%s); the reader model predicts %s' % (
+                        name, illformed_why(cls, oi['dump']), CLS[cls], lab, short_m(o2)), replay_of(cls, data, oi, model[i]), len(data))
+                elif oi['kind'] == 'ok' and (min(oi['flags'][:2] + oi['flags'][3:]) < 1):
                     found_input = True
                     report('unpredicted:%s:object-not-reusable' % name, '%s returns an object that cannot be printed/saved/reloaded identically %s; the model predicts %s' % (name, oi['flags'], short_m(o2)),
                            replay_of(cls, data, oi, model[i]), len(data))
@@ -511,6 +531,25 @@ def check_flags(cls, lab, data, oi, report, name):
     elif resave != 1: report('%s:object-not-savable' % name, '%s returns an object that cannot be saved again (dumpToNF: %d), for a %s file (%s)' % (name, resave, CLS[cls], lab), replay_of(cls, data, oi), len(data))
     elif reload_ != 1: report('%s:saved-object-not-reloadable' % name, '%s returns an object whose saved file does not load, for a %s file (%s)' % (name, CLS[cls], lab), replay_of(cls, data, oi), len(data))
     # idem (the reloaded object saves to the same bytes) is the business of C08: reported in the evidence only
+
+def impl_illformed(cls, d):
+    """the class invariant (coq/C09/Spec.v: wf_db, wf_dbgrid, wf_table) evaluated on the dump of the implementation's object"""
+    try:
+        if cls == 2:
+            g, db = d
+            if g[0] < 0 or any(len(x) != g[0] for x in g[1:5]) or any(v < 0 for v in g[1]): return True
+            if db[1] != (0 if g[0] <= 0 else prod(g[1])): return True
+            return impl_illformed(1, db)
+        if cls == 1:
+            ncol, nech, names, uid, locs, arr = d
+            allu = [u for l in locs for u in l]
+            return (ncol < 0 or nech < 0 or len(names) != ncol or uid != list(range(ncol)) or len(arr) != ncol * nech or len(locs) != 29
+                    or len(set(allu)) != len(allu) or any(u < 0 or u >= ncol for u in allu))
+        if cls == 3:
+            return d[0] < 0 or d[1] < 0 or len(d[2]) != d[0] * d[1]
+    except (IndexError, TypeError, ValueError):
+        return True
+    return False
 
 def illformed_why(cls, d):
     if cls == 2:
